@@ -139,7 +139,7 @@ impl Fail {
 
 static PANICS: Mutex<Vec<String>> = Mutex::new(Vec::new());
 /// Whether `Db::open` tolerates (and counts) a briefly still-held directory lock.
-pub static LOCK_RETRY: std::sync::atomic::AtomicBool = std::sync::atomic::AtomicBool::new(true);
+pub static LOCK_RETRY: std::sync::atomic::AtomicBool = std::sync::atomic::AtomicBool::new(false);
 pub static LOCK_RETRIES: std::sync::atomic::AtomicU64 = std::sync::atomic::AtomicU64::new(0);
 pub static LOCK_RETRY_MAX_MS: std::sync::atomic::AtomicU64 = std::sync::atomic::AtomicU64::new(0);
 
@@ -232,8 +232,9 @@ impl<H: HK> Db<H> {
     pub fn open(dir: &Path, cfg: &Cfg) -> Result<Self, Fail> {
         assert_eq!(cfg.hasher, H::KIND);
         nomt::verif::set_rollback_segment_size(cfg.seg_records as u64 * 4096);
-        // Known finding KF-C20-1 (lock released asynchronously after drop when a warm-up worker is
-        // still exiting): every check except C20 tolerates a bounded wait here and counts it.
+        // FX-C20-1 (lock released asynchronously after drop when a warm-up worker was still exiting)
+        // is repaired; the bounded wait below is off by default (LOCK_RETRY) and only kept as a
+        // debugging aid.
         let t0 = std::time::Instant::now();
         loop {
             match guard("Nomt::open", || Nomt::<H::N>::open(cfg.options(dir))) {
